@@ -39,6 +39,15 @@ DEFS = {
     'S_sort2': '<xsl:stylesheet version="1.0" %s><xsl:template match="/"><o><xsl:for-each select="//i"><xsl:sort select="@g" data-type="number" order="descending"/><xsl:sort select="@n"/>'
                '<e><xsl:value-of select="@n"/></e></xsl:for-each>|<xsl:apply-templates select="//i"><xsl:sort select="@n" order="descending"/></xsl:apply-templates></o></xsl:template>'
                '<xsl:template match="i"><f><xsl:value-of select="@n"/></f></xsl:template></xsl:stylesheet>' % X,
+    # abort inside the body of a variable (a result tree fragment under construction) AFTER text was written into it: at depth 1 and,
+    # through a with-param body inside a variable body, at depth 2
+    'S_rtfterm': '<xsl:stylesheet version="1.0" %s><xsl:template match="/"><o><xsl:variable name="v">Total: <xsl:value-of select="count(//i)"/><xsl:if test="//i">'
+                 '<xsl:message terminate="yes">stop</xsl:message></xsl:if></xsl:variable><xsl:copy-of select="$v"/></o></xsl:template></xsl:stylesheet>' % X,
+    'S_rtfterm2': '<xsl:stylesheet version="1.0" %s><xsl:template match="/"><o><xsl:variable name="v"><a>outer <xsl:call-template name="t"><xsl:with-param name="w">inner '
+                  '<xsl:value-of select="count(//i)"/><xsl:if test="//i"><xsl:message terminate="yes">stop</xsl:message></xsl:if></xsl:with-param></xsl:call-template></a></xsl:variable>'
+                  '<xsl:copy-of select="$v"/></o></xsl:template><xsl:template name="t"><xsl:param name="w"/><xsl:copy-of select="$w"/></xsl:template></xsl:stylesheet>' % X,
+    'S_rtf2': '<xsl:stylesheet version="1.0" %s><xsl:template match="/"><o><xsl:variable name="v">t<a><xsl:call-template name="t"><xsl:with-param name="w"><b/>u</xsl:with-param></xsl:call-template></a></xsl:variable>'
+              '<xsl:copy-of select="$v"/>|<xsl:value-of select="string-length($v)"/></o></xsl:template><xsl:template name="t"><xsl:param name="w"/><xsl:copy-of select="$w"/></xsl:template></xsl:stylesheet>' % X,
     'S_comperr': '<xsl:stylesheet version="1.0" %s><xsl:template match="/"><xsl:nosuch/><xsl:value-of select="1 +"/></xsl:template></xsl:stylesheet>' % X,
     'D1': '<r><i n="b" g="1" u="">1</i><i n="a" g="2" u="é">2</i><i n="c" g="1" u="">3</i></r>',
     'D2': '<r><i n="z" g="2" u=""><i n="y" g="1" u="">4</i></i></r>',
@@ -51,12 +60,12 @@ OPS = [
     'compile:S_ok', 'compile:S_term', 'compile:S_gv', 'compile:S_comperr',
     'parse:D1:st', 'parse:D2:xw', 'parse:D_bad:st',
     'trS:S_ok:D1', 'trS:S_term:D1', 'trS:S_rterr:D1', 'trS:S_badname:D1', 'trS:S_enc:D2', 'trS:S_doc:D1', 'trS:S_html:D2', 'trS:S_ok:D_bad', 'trS:S_comperr:D1',
-    'trS:S_sorterr:D3', 'trS:S_sorterrn:D3',
+    'trS:S_sorterr:D3', 'trS:S_sorterrn:D3', 'trS:S_rtfterm:D1', 'trS:S_rtfterm2:D1',
     'trH:0:0', 'trH:0:1', 'trM:S_term:0',
     "param:p='1'", 'param:p=2+3', "param:q=//i[1]/@n", 'clear',
     'delS:0', 'delD:0', 'indent:2', 'enc:ISO-8859-1', 'inst', 'uninst',
 ]
-PROBES = ['trS:S_ok:D1', 'trS:S_ok:D2', 'trH:0:0', 'trH:0:1', 'trH:0:0', 'trS:S_html:D1', 'trS:S_term:D2', 'trS:S_text:D1', 'trM:S_ok:0', 'trS:S_sort2:D1', 'trS:S_sort2:D2']
+PROBES = ['trS:S_ok:D1', 'trS:S_ok:D2', 'trH:0:0', 'trH:0:1', 'trH:0:0', 'trS:S_html:D1', 'trS:S_term:D2', 'trS:S_text:D1', 'trM:S_ok:0', 'trS:S_sort2:D1', 'trS:S_sort2:D2', 'trS:S_rtf2:D1']
 COMPILES_OK = {'S_ok': True, 'S_term': True, 'S_gv': True, 'S_comperr': False}
 PARSES_OK = {'D1': True, 'D2': True, 'D_bad': False}
 MAX_HANDLES = 2
